@@ -34,6 +34,7 @@ type stubSumDB struct {
 	signer  note.Signer
 	origin  string
 	reqs    []string
+	redirectLatest bool // /latest answers 302 to another path
 	hostile func(path string) (int, []byte, bool)
 }
 
@@ -52,6 +53,15 @@ func newStubSumDB(rng *rand.Rand, maxLeaves int, key logKey, origin string) *stu
 	s := &stubSumDB{signer: key.signer, origin: origin}
 	for i := 0; i < maxLeaves; i++ {
 		data := []byte(fmt.Sprintf("leaf %d of %s", i, origin))
+		if i == 0 {
+			// the very first byte of tile/8/0/000 (the record hash of leaf 0) is '<': binary tile data may start with any byte
+			for k := 0; ; k++ {
+				data = []byte(fmt.Sprintf("leaf 0 of %s (nonce %d)", origin, k))
+				if h := tlog.RecordHash(data); h[0] == '<' {
+					break
+				}
+			}
+		}
 		hs, err := tlog.StoredHashes(int64(i), data, s)
 		if err != nil {
 			panic(err)
@@ -103,7 +113,13 @@ func (s *stubSumDB) RoundTrip(r *http.Request) (*http.Response, error) {
 			return mk(code, body)
 		}
 	}
-	if p == "/latest" {
+	if p == "/latest" && s.redirectLatest {
+		// the front end sends the client elsewhere for the checkpoint (temporarily): tiles stay where they are
+		resp, _ := mk(302, nil)
+		resp.Header.Set("Location", s.mount+"/checkpoints/current?src=latest")
+		return resp, nil
+	}
+	if p == "/latest" || (p == "/checkpoints/current" && s.redirectLatest) {
 		return mk(200, s.latest())
 	}
 	t, err := tlog.ParseTilePath(strings.TrimPrefix(p, "/"))
@@ -200,7 +216,11 @@ func scenarioTiles(t *traceWriter, rng *rand.Rand) {
 	l := &logDef{origin: origin, key: key}
 	s := newSession(t, "mem", []*logDef{l}, wk)
 	lcfg := config.Log{ID: l.id, Origin: origin, Verifier: l.rv, URL: "http://sumdb.invalid"}
+	slowFailures := 0
 	for pi, p := range pairs {
+		if slowFailures >= 4 {
+			break
+		}
 		// the witness side: a recording stub that holds the log's checkpoint at size `from`
 		sdb.mu.Lock()
 		sdb.size = int64(p.from)
@@ -217,10 +237,20 @@ func scenarioTiles(t *traceWriter, rng *rand.Rand) {
 			sdb.mu.Unlock()
 			lc.URL = "http://sumdb.invalid/sumdb/sum.example.org"
 		}
+		if pi%5 == 3 {
+			sdb.mu.Lock()
+			sdb.redirectLatest = true
+			sdb.mu.Unlock()
+		}
+		tStart := time.Now()
 		err := sumdbfeeder.FeedLog(ctx, lc, sw, &http.Client{Transport: sdb}, 0)
 		cancel()
+		if err != nil && time.Since(tStart) > 8*time.Second {
+			slowFailures++ // a cycle that used up its whole deadline: after a few of them the remaining pairs add nothing but time
+		}
 		sdb.mu.Lock()
 		sdb.mount = ""
+		sdb.redirectLatest = false
 		sdb.mu.Unlock()
 		// reference: which tiles does the proof need, and what is the proof
 		ref := refTileReader{s: sdb, paths: map[string]bool{}}
@@ -234,7 +264,7 @@ func scenarioTiles(t *traceWriter, rng *rand.Rand) {
 		sdb.mu.Lock()
 		var got []string
 		for _, r := range sdb.reqs {
-			if r != "/latest" {
+			if r != "/latest" && r != "/checkpoints/current" {
 				got = append(got, r)
 			}
 		}
